@@ -110,6 +110,9 @@ type World struct {
 	K         *vexec.Kernel
 	gens      map[string]int
 	Notes     []string
+	// Milestone counts actor-visible events (call issued / answered, invocation issued / answered): harness
+	// threads that must act "at any point of an invocation" wait for a chosen milestone.
+	Milestone int
 }
 
 const BootstrapPath = "/var/task/bootstrap"
@@ -324,6 +327,7 @@ func (a *Actor) do(kind, method, path string, hdr map[string]string, body []byte
 	w := a.W
 	c := &Call{Actor: a.Name, Gen: a.Gen, Pid: a.P.Pid, Kind: kind, Path: path, Issued: sched.StepNo(), IssuedNs: sched.NowNs(), Answered: -1, Sent: body, IssuedAt: sched.StampNow()}
 	w.Calls = append(w.Calls, c)
+	w.Milestone++
 	sched.Record("issue:" + a.Name + ":" + kind)
 	rec := httptest.NewRecorder()
 	req := httptest.NewRequest(method, "http://127.0.0.1:9001"+path, bytes.NewReader(body))
@@ -349,6 +353,7 @@ func (a *Actor) do(kind, method, path string, hdr map[string]string, body []byte
 	c.Status = rec.Code
 	c.Header = rec.Header()
 	c.Body = rec.Body.Bytes()
+	w.Milestone++
 	sched.Record(fmt.Sprintf("answer:%s:%s:%d", a.Name, kind, c.Status))
 	return c
 }
@@ -453,6 +458,7 @@ func EventType(c *Call) string {
 func (w *World) Invoke(payload []byte, hdr map[string]string) *Invoke {
 	inv := &Invoke{Idx: len(w.Invokes), Payload: payload, Headers: hdr, Issued: sched.StepNo(), IssuedNs: sched.NowNs(), Answered: -1, IssuedAt: sched.StampNow()}
 	w.Invokes = append(w.Invokes, inv)
+	w.Milestone++
 	sched.Record(fmt.Sprintf("invoke-issue:%d", inv.Idx))
 	rec := httptest.NewRecorder()
 	req := httptest.NewRequest("POST", "http://localhost:8080/2015-03-31/functions/function/invocations", bytes.NewReader(payload))
@@ -476,6 +482,7 @@ func (w *World) Invoke(payload []byte, hdr map[string]string) *Invoke {
 	inv.AnsNs = sched.NowNs()
 	inv.Status = rec.Code
 	inv.Body = rec.Body.Bytes()
+	w.Milestone++
 	sched.Record(fmt.Sprintf("invoke-answer:%d:%d", inv.Idx, inv.Status))
 	return inv
 }
